@@ -253,6 +253,12 @@ func runC19(c *Ctx) {
 			n := n
 			// an edge is impossible when one of its facts contradicts len(parts) == n
 			impossible := func(b *eng.Block, i int) bool {
+				if cond := rcf.Cond(b); cond != nil {
+					if tv, ok := rinfo.Types[cond]; ok && tv.Value != nil {
+						// constant condition: only one edge exists
+						return (tv.Value.String() == "true") != (i == 0)
+					}
+				}
 				for _, ft := range rcf.EdgeFacts(b, i) {
 					x, op, cst, ok := ft.IntCmp()
 					if !ok {
